@@ -15,12 +15,13 @@ validates the translators themselves (run by hand; results quoted in DESIGN.md 1
 import os, re, subprocess, sys, tempfile, shutil
 HERE = os.path.dirname(os.path.abspath(__file__))
 sys.path.insert(0, HERE)
-import extract_cmp, extract_bmca, extract_announce, extract_msgs
+import extract_cmp, extract_bmca, extract_announce, extract_msgs, extract_receipt
 REPO = os.environ.get("VERIF_REPO", "/repo")
 LEAN = os.path.join(HERE, "..", "lean")
 CMP = "statime/src/bmc/dataset_comparison.rs"
 BMCA = "statime/src/bmc/bmca.rs"
 MSG = "statime/src/datastructures/messages/mod.rs"
+PORT = "statime/src/port/mod.rs"
 
 # (name, file, old, new, expect) — expect: "break" or "hold"
 MUTANTS = [
@@ -77,6 +78,16 @@ MUTANTS = [
     ("pdelay_resp: sequence number is our own counter", MSG, "                    request_header.sequence_id,\n                    minor_ptp_version,", "                    0,\n                    minor_ptp_version,", "degrade"),
     ("pdelay_resp: request correction not copied", MSG, "                correction_field: request_header.correction_field,\n", "", "break"),
     ("pdelay_resp: one-step flag", MSG, "                two_step_flag: true,\n                correction_field: request_header.correction_field,", "                two_step_flag: false,\n                correction_field: request_header.correction_field,", "break"),
+    ("receipt timeout: Faulty port no longer re-arms (seed C12-8)", PORT, "            let duration = self.config.announce_duration(&mut self.rng);\n            return actions![PortAction::ResetAnnounceReceiptTimer { duration }];\n        }\n\n        if self\n            .instance_state",
+     "            return actions![];\n        }\n\n        if self\n            .instance_state", "break"),
+    ("receipt timeout: master-only port of a slave-only instance becomes Master (seed C08-8)", PORT, "        if self\n            .instance_state\n            .with_ref(|state| state.default_ds.slave_only)\n        {\n            // We didn't hear messages from the master anymore",
+     "        let slave_only = self\n            .instance_state\n            .with_ref(|state| state.default_ds.slave_only);\n        if slave_only && !self.config.master_only {\n            // We didn't hear messages from the master anymore", "break"),
+    ("receipt timeout: Faulty test dropped", PORT, "        if matches!(self.port_state, PortState::Faulty) {\n            // A port disabled by a peer delay fault stays disabled until a clean\n            // peer delay exchange; keep the timer running for when it recovers.\n            let duration = self.config.announce_duration(&mut self.rng);\n            return actions![PortAction::ResetAnnounceReceiptTimer { duration }];\n        }\n", "", "break"),
+    ("receipt timeout: sync timer not started", PORT, "                PortAction::ResetAnnounceTimer {\n                    duration: core::time::Duration::from_secs(0)\n                },\n                PortAction::ResetSyncTimer {\n                    duration: core::time::Duration::from_secs(0)\n                }\n            ]\n        }\n    }\n\n    /// Handle the filter update timer",
+     "                PortAction::ResetAnnounceTimer {\n                    duration: core::time::Duration::from_secs(0)\n                }\n            ]\n        }\n    }\n\n    /// Handle the filter update timer", "break"),
+    ("receipt timeout: slave-only port forced to Passive", PORT, "            if !matches!(self.port_state, PortState::Listening) {\n                self.set_forced_port_state(PortState::Listening);", "            if !matches!(self.port_state, PortState::Passive) {\n                self.set_forced_port_state(PortState::Passive);", "break"),
+    ("receipt timeout: slave-only bound to a name first (same meaning)", PORT, "        if self\n            .instance_state\n            .with_ref(|state| state.default_ds.slave_only)\n        {\n            // We didn't hear messages from the master anymore",
+     "        let slave_only = self\n            .instance_state\n            .with_ref(|state| state.default_ds.slave_only);\n        if slave_only {\n            // We didn't hear messages from the master anymore", "hold"),
     ("announce: leap flags crossed", MSG, "leap59: time_properties_ds.leap_indicator == LeapIndicator::Leap59,\n            leap61: time_properties_ds.leap_indicator == LeapIndicator::Leap61,",
      "leap59: time_properties_ds.leap_indicator == LeapIndicator::Leap61,\n            leap61: time_properties_ds.leap_indicator == LeapIndicator::Leap59,", "break"),
     ("announce: traceable flags crossed", MSG, "time_tracable: time_properties_ds.time_traceable,\n            frequency_tracable: time_properties_ds.frequency_traceable,",
@@ -105,7 +116,7 @@ example : Generated.cmpDispatch.isSome ∧ Generated.figure35Arms.isSome ∧ Gen
     Generated.figure34Arms.isSome ∧ Generated.asOrderingTable.isSome ∧ Generated.ofAnnounceTable.isSome ∧
     Generated.ofOwnTable.isSome ∧ Generated.accuracyComparedByOctet = some true ∧ Generated.decisionTable.isSome ∧ Generated.bestCompareTable.isSome ∧ Generated.findBestIsMaxBy = some true ∧
     Generated.announceFlagTable.isSome ∧ Generated.announceBodyTable.isSome ∧ Generated.timePropertiesTable.isSome ∧ Generated.syncCtor.isSome ∧ Generated.followUpCtor.isSome ∧
-    Generated.delayReqCtor.isSome ∧ Generated.delayRespCtor.isSome ∧ Generated.pdelayReqCtor.isSome ∧ Generated.pdelayRespCtor.isSome ∧ Generated.pdelayRespFuCtor.isSome ∧
+    Generated.delayReqCtor.isSome ∧ Generated.delayRespCtor.isSome ∧ Generated.pdelayReqCtor.isSome ∧ Generated.pdelayRespCtor.isSome ∧ Generated.pdelayRespFuCtor.isSome ∧ Generated.receiptTimerTable.isSome ∧
     Generated.announceBaseHeaderAsModelled = some true := by decide
 """
 
@@ -125,6 +136,7 @@ def main():
     sec = section()
     sec11 = section("C11")
     sec10 = section("C10")
+    sec08 = section("C08")
     bad = 0
     try:
         for i, (name, rel, old, new, expect) in enumerate(MUTANTS):
@@ -140,12 +152,13 @@ def main():
                 return t
             out, deg = {}, []
             w = lambda n, t: out.__setitem__(n, t)
-            extract_cmp.run(read, w, deg); extract_bmca.run(read, w, deg); extract_announce.run(read, w, deg); extract_msgs.run(read, w, deg)
-            lean = ("import StatimeModel.Lemmas.CmpGen\nimport StatimeModel.Lemmas.DecisionGen\nimport StatimeModel.Lemmas.AnnounceGen\nimport StatimeModel.Lemmas.MsgGen\n" +
-                    body(out["DatasetComparison.lean"]) + body(out["StateDecision.lean"]) + body(out["AnnounceCtor.lean"]) + body(out["MsgCtors.lean"]) +
+            extract_cmp.run(read, w, deg); extract_bmca.run(read, w, deg); extract_announce.run(read, w, deg); extract_msgs.run(read, w, deg); extract_receipt.run(read, w, deg)
+            lean = ("import StatimeModel.Lemmas.CmpGen\nimport StatimeModel.Lemmas.DecisionGen\nimport StatimeModel.Lemmas.AnnounceGen\nimport StatimeModel.Lemmas.MsgGen\nimport StatimeModel.Lemmas.ReceiptGen\n" +
+                    body(out["DatasetComparison.lean"]) + body(out["StateDecision.lean"]) + body(out["AnnounceCtor.lean"]) + body(out["MsgCtors.lean"]) + body(out["ReceiptTimer.lean"]) +
                     "\nnamespace Statime.C05\nopen Statime\n" + sec + "\nend Statime.C05\n" +
                     "\nnamespace Statime.C11\nopen Statime\n" + sec11 + "\nend Statime.C11\n" +
-                    "\nnamespace Statime.C10\nopen Statime\n" + sec10 + "\nend Statime.C10\n" + (COMPLETE if not old else ""))
+                    "\nnamespace Statime.C10\nopen Statime\n" + sec10 + "\nend Statime.C10\n" +
+                    "\nnamespace Statime.C08\nopen Statime\n" + sec08 + "\nend Statime.C08\n" + (COMPLETE if not old else ""))
             path = os.path.join(tmp, f"m{i}.lean")
             open(path, "w").write(lean)
             r = subprocess.run(["lake", "env", "lean", path], cwd=LEAN, capture_output=True, text=True)
